@@ -259,6 +259,13 @@ def roundtrip_battery(imp, fl, gid, viol, protect=(), deep=None):
         ]
         if fl == "shared":
             entries.insert(3, ("string-same", lambda: (imp.import_graph_from_string(graph_string=text, graph_id=gid), gid)))
+        else:
+            # per-graph store: keeping the id means deleting the stored graph first (a re-import onto a live id is the
+            # documented skip) - the deleted id must be importable again and give the same content
+            def same_after_delete():
+                store.graph_handle(imp, gid).delete_graph()
+                return imp.import_graph_from_string(graph_string=text, graph_id=gid), gid
+            entries.insert(3, ("string-same-after-delete", same_after_delete))
         for entry, fn in entries:
             path = None
             try:
